@@ -50,13 +50,13 @@ func createASTTypeExpr(pkg string, t types.Type, varPool *VarPool, imports map[s
 				}
 			}
 
-			return &ast.SelectorExpr{
+			return instantiateTypeExpr(pkg, &ast.SelectorExpr{
 				X:   ast.NewIdent(pkgName),
 				Sel: ast.NewIdent(name),
-			}, nil
+			}, typ.TypeArgs(), varPool, imports)
 		}
 
-		return ast.NewIdent(name), nil
+		return instantiateTypeExpr(pkg, ast.NewIdent(name), typ.TypeArgs(), varPool, imports)
 	case *types.Alias:
 		name := typ.Obj().Name()
 		if objPkg := typ.Obj().Pkg(); objPkg != nil && objPkg.Path() != pkg {
@@ -77,13 +77,13 @@ func createASTTypeExpr(pkg string, t types.Type, varPool *VarPool, imports map[s
 				}
 			}
 
-			return &ast.SelectorExpr{
+			return instantiateTypeExpr(pkg, &ast.SelectorExpr{
 				X:   ast.NewIdent(pkgName),
 				Sel: ast.NewIdent(name),
-			}, nil
+			}, typ.TypeArgs(), varPool, imports)
 		}
 
-		return ast.NewIdent(name), nil
+		return instantiateTypeExpr(pkg, ast.NewIdent(name), typ.TypeArgs(), varPool, imports)
 	case *types.Slice:
 		expr, err := createASTTypeExpr(pkg, typ.Elem(), varPool, imports)
 		if err != nil {
@@ -228,6 +228,29 @@ func createASTTypeExpr(pkg string, t types.Type, varPool *VarPool, imports map[s
 	default:
 		return nil, fmt.Errorf("unsupported type: %s", t.String())
 	}
+}
+
+// instantiateTypeExpr appends the type arguments of an instantiated generic type (Box[int],
+// Pair[string, T]) to the expression naming the generic type.
+func instantiateTypeExpr(pkg string, generic ast.Expr, typeArgs *types.TypeList, varPool *VarPool, imports map[string]*Import) (ast.Expr, error) {
+	if typeArgs == nil || typeArgs.Len() == 0 {
+		return generic, nil
+	}
+
+	args := make([]ast.Expr, 0, typeArgs.Len())
+	for i := 0; i < typeArgs.Len(); i++ {
+		expr, err := createASTTypeExpr(pkg, typeArgs.At(i), varPool, imports)
+		if err != nil {
+			return nil, fmt.Errorf("type argument %d: %w", i, err)
+		}
+		args = append(args, expr)
+	}
+
+	if len(args) == 1 {
+		return &ast.IndexExpr{X: generic, Index: args[0]}, nil
+	}
+
+	return &ast.IndexListExpr{X: generic, Indices: args}, nil
 }
 
 func CreateInjector(metaData *MetaData, build *BuildDirective, varPool *VarPool) (*Injector, error) {
